@@ -117,11 +117,11 @@ Fixpoint k17_split_escape (body : list N) : bool :=
         match k17_next false r with
         | Some (h, s1, r1) =>
             match k17_next false r1 with
-            | Some (l, s2, _) => (k17_is_hex h && k17_is_hex l && (s1 || s2)) || k17_split_escape r
-            | None => k17_split_escape r
+            | Some (l, s2, _) => k17_is_hex h && k17_is_hex l && (s1 || s2)
+            | None => false
             end
         | None => false
-        end
+        end || k17_split_escape r
       else k17_split_escape r
   end.
 
